@@ -8,6 +8,7 @@ import (
 	"os"
 	"os/exec"
 	"path/filepath"
+	"regexp"
 	"sort"
 	"strconv"
 	"strings"
@@ -513,6 +514,55 @@ func c17Synth(r *vp.InstResult) {
 	r.Sample = map[string]any{"service": "my_service", "method": "read_value_2 (quorumcall+per_node_arg+custom_return_type)", "checked": "stub ReadValue_2 sends under pkg.my_service.read_value_2 and the server registration listens on the same name"}
 }
 
+// c17Sibling: the custom return type of a method is declared in ANOTHER proto file of the same Go package
+// (or is a hand-written type of that package): the option's value is a Go type name of the generated package,
+// so the quorum function and the stub must use it whichever file declares it.
+func c17Sibling(r *vp.InstResult) {
+	bases := []gen.MethodSpec{
+		{Name: "QC", In: "Req", Out: "Resp", Quorumcall: true, CustomRet: "State"},
+		{Name: "QCPer", In: "Req", Out: "Resp", Quorumcall: true, PerNodeArg: true, CustomRet: "State"},
+		{Name: "QCAsync", In: "Req", Out: "Resp", Quorumcall: true, Async: true, CustomRet: "State"},
+		{Name: "Corr", In: "Req", Out: "Resp", Correctable: true, CustomRet: "State"},
+		{Name: "CorrStream", In: "Req", Out: "Resp", Correctable: true, ServerStream: true, CustomRet: "State"},
+	}
+	for _, where := range []string{"same file", "sibling file of the package"} {
+		msgs := []string{"Req", "Resp"}
+		if where == "same file" {
+			msgs = append(msgs, "State")
+		}
+		spec := gen.ServiceSpec{Pkg: "sib" + strings.ReplaceAll(where[:4], " ", ""), Service: "Storage", Messages: msgs, Methods: bases}
+		c := &genCase{spec: spec}
+		if err := runPlugins(c, "protoc-gen-gorums", nil); err != nil {
+			r.Error = err.Error()
+			return
+		}
+		r.Execs++
+		if c.res.Exit != 0 || c.res.Error != "" {
+			diag, _ := c.res.Diagnostic()
+			addViol(r, "C16/legal-rejected", "custom return type declared in the "+where, fmt.Sprintf("a service whose custom return type is declared in the %s is rejected: %s", where, firstLine(diag)), nil)
+			continue
+		}
+		var src string
+		for _, content := range c.res.Files {
+			src += content
+		}
+		for _, m := range bases {
+			// the quorum function of the method returns the declared custom type
+			re := regexp.MustCompile(`(?m)^\s*` + m.Name + `QF\(.*\) \(\*(\w+),`)
+			got := re.FindStringSubmatch(src)
+			switch {
+			case got == nil:
+				addViol(r, "C17/custom-return-type", m.Name+" ("+where+")", fmt.Sprintf("no quorum function %sQF in the QuorumSpec generated for a method with custom_return_type (declared in the %s)", m.Name, where), nil)
+			case got[1] != "State":
+				addViol(r, "C17/custom-return-type", m.Name+" ("+where+")", fmt.Sprintf("method %s declares custom_return_type = \"State\" (declared in the %s), but its quorum function returns *%s", m.Name, where, got[1]), nil)
+			}
+		}
+		r.Outcomes["custom type in the "+where]++
+	}
+	r.States, r.Steps = r.Execs, r.Execs
+	r.Sample = map[string]any{"service": "Storage with 5 methods whose custom_return_type State lives in another file of the same Go package", "checked": "<M>QF returns *State"}
+}
+
 func c17Binding(d genDir, regenerated bool) func(r *vp.InstResult) {
 	return func(r *vp.InstResult) {
 		fd, err := gen.RawDescFromGoFile(filepath.Join(repoDir, d.dir, d.pbgo))
@@ -564,7 +614,7 @@ func init() {
 			if err != nil {
 				return []instance{{"error", func(r *vp.InstResult) { r.Error = err.Error() }}}
 			}
-			out := []instance{{"current/static-bundle", c17Bundle}, {"binding-synthesised/identifier-spellings", c17Synth}}
+			out := []instance{{"current/static-bundle", c17Bundle}, {"binding-synthesised/identifier-spellings", c17Synth}, {"binding-synthesised/custom-return-type-in-sibling-file", c17Sibling}}
 			for _, d := range dirs {
 				out = append(out, instance{"current/" + d.dir, c17Current(d)})
 				out = append(out, instance{"binding-committed/" + d.dir, c17Binding(d, false)})
